@@ -82,14 +82,21 @@ struct qb_ringbuffer_s ring_rb;
 unsigned char nondet_uchar(void);
 uint32_t nondet_u32(void);
 
+/* optional pre-state: PREFILL chunks already queued when the two threads start (reaches the "ring full, writer
+ * reuses the space the reader is just giving back" situations with only one concurrent write and read) */
+#ifndef PREFILL
+#define PREFILL 0
+#endif
+uint32_t pbuf[PREFILL + 1][PL / 4];
+uint32_t plen[PREFILL + 1];
 /* writer side */
 uint32_t wbuf[NW][PL / 4];
 uint32_t wlen[NW];
 ssize_t wres[NW];
 int writer_done;
 /* reader side */
-uint32_t rbuf[NR + NW][PL / 4];
-ssize_t rres[NR + NW];
+uint32_t rbuf[NR + NW + PREFILL][PL / 4];
+ssize_t rres[NR + NW + PREFILL];
 
 void writer(void)
 {
@@ -106,6 +113,15 @@ void harness(void)
 	uint32_t start = nondet_u32();
 	__CPROVER_assume(start < RING_W);            /* any position: wrap-around at every offset */
 	ring_hdr.read_pt = start; ring_hdr.write_pt = start;
+	for (int i = 0; i < PREFILL; i++) {
+		plen[i] = nondet_u32();
+		__CPROVER_assume(plen[i] <= PL);
+		uint32_t wp = ring_hdr.write_pt;
+		ring_data[wp] = plen[i];
+		ring_data[wmod(wp + 1)] = QB_RB_CHUNK_MAGIC;
+		for (int j = 0; j < PL / 4; j++) { pbuf[i][j] = nondet_u32(); if (4 * j < (int)plen[i]) ring_data[wmod(wp + 2 + j)] = pbuf[i][j]; }
+		ring_hdr.write_pt = wmod(wp + 2 + (plen[i] + 3) / 4);
+	}
 	ring_rb.flags = QB_RB_FLAG_NO_SEMAPHORE;
 	ring_rb.shared_hdr = &ring_hdr;
 	ring_rb.shared_data = ring_data;
@@ -122,30 +138,33 @@ void harness(void)
 	}
 	__CPROVER_assume(writer_done);               /* join */
 	/* sequential drain of what is left */
-	for (int j = NR; j < NR + NW; j++) {
+	for (int j = NR; j < NR + NW + PREFILL; j++) {
 		rres[j] = qb_rb_chunk_read(&ring_rb, rbuf[j], PL, 0);
 	}
 
-	/* oracle: the successful reads, in order, are exactly the successful writes, in order */
-	int k = 0;                                   /* index of the next successful write to be delivered */
-	for (int j = 0; j < NR + NW; j++) {
+	/* oracle: the successful reads, in order, are exactly the pre-filled chunks followed by the successful writes */
+	int k = 0;                                   /* index into the expected sequence: 0..PREFILL-1 prefill, then writes */
+	for (int j = 0; j < NR + NW + PREFILL; j++) {
 		if (rres[j] >= 0) {
-			while (k < NW && wres[k] < 0) k++;
-			__CPROVER_assert(k < NW, "P:a read never returns a chunk that was not (successfully) written");
-			if (k < NW) {
-				__CPROVER_assert(rres[j] == (ssize_t)wlen[k], "P:read returns the length of the next written chunk (FIFO, exactly once)");
-				for (int b = 0; b < PL; b++)
-					if (b < (int)wlen[k]) __CPROVER_assert(((rbuf[j][b / 4] ^ wbuf[k][b / 4]) >> (8 * (b % 4)) & 0xff) == 0, "P:read returns the bytes of the next written chunk (untorn)");
+			while (k >= PREFILL && k - PREFILL < NW && wres[k - PREFILL] < 0) k++;
+			__CPROVER_assert(k < PREFILL + NW, "P:a read never returns a chunk that was not (successfully) written");
+			if (k < PREFILL + NW) {
+				uint32_t elen = k < PREFILL ? plen[k < PREFILL ? k : 0] : wlen[k - PREFILL];
+				__CPROVER_assert(rres[j] == (ssize_t)elen, "P:read returns the length of the next written chunk (FIFO, exactly once)");
+				for (int b = 0; b < PL; b++) {
+					uint32_t ew = k < PREFILL ? pbuf[k < PREFILL ? k : 0][b / 4] : wbuf[k - PREFILL][b / 4];
+					if (b < (int)elen) __CPROVER_assert(((rbuf[j][b / 4] ^ ew) >> (8 * (b % 4)) & 0xff) == 0, "P:read returns the bytes of the next written chunk (untorn, undamaged)");
+				}
 				k++;
 			}
 		} else {
 			__CPROVER_assert(rres[j] == -ETIMEDOUT, "P:a read that finds nothing reports -ETIMEDOUT");
 		}
 	}
-	while (k < NW && wres[k] < 0) k++;
-	__CPROVER_assert(k == NW, "P:every successfully written chunk was returned by some read");
+	while (k >= PREFILL && k - PREFILL < NW && wres[k - PREFILL] < 0) k++;
+	__CPROVER_assert(k == PREFILL + NW, "P:every successfully written chunk was returned by some read");
 	for (int i = 0; i < NW; i++)
 		__CPROVER_assert(wres[i] == (ssize_t)wlen[i] || wres[i] == -EAGAIN, "P:write returns len or -EAGAIN");
-	__CPROVER_assert(rres[NR + NW - 1] == -ETIMEDOUT || NW > 0, "P:drain ends");
+	
 	__CPROVER_assert(0, "W:both threads finished");
 }
